@@ -1988,7 +1988,12 @@ class KmipEngine(object):
             )
 
         managed_object_factory = factory.ObjectFactory()
-        managed_object = managed_object_factory.convert(secret)
+        try:
+            managed_object = managed_object_factory.convert(secret)
+        except (TypeError, ValueError) as e:
+            raise exceptions.InvalidField(
+                "The object to register is not valid: {0}".format(e)
+            )
         managed_object.names = []
 
         self._set_attributes_on_managed_object(
